@@ -211,14 +211,46 @@ def loc_rule(ctx):
         sc = FnScope(g.node, [])
         ok = False
         d = "ScopeRef construction not found"
-        # the tuple passed on by the lookup closure: (index, location.clone())
+
+        def from_datafield(name, at, depth=0):
+            """is `name` (as visible at node `at`) the location bound by the DataField pattern, possibly through clones / tuples?"""
+            if depth > 4:
+                return False
+            r = sc.resolve(name, at)
+            if r is None:
+                return False
+            if r[0] == "match" and "@DataField" in r[2]:
+                return True
+            src = r[1]
+            if r[0] in ("let", "match") and src is not None:
+                # `let location = location.clone()` / `if let Some((index, location)) = index` with `index` built by the lookup closure
+                for x in sir.walk(src):
+                    if x.get("k") == "path" and len(x["segs"]) == 1 and x["segs"][0] not in ("Some", "None") and x["segs"][0] != name or (x.get("k") == "path" and x.get("s") == name and r[0] == "let"):
+                        nm = x["segs"][0]
+                        if nm == name and r[0] == "let":
+                            if from_datafield(nm, r[3], depth + 1):
+                                return True
+                        elif nm in ("location",) or "loc" in nm:
+                            if from_datafield(nm, x, depth + 1):
+                                return True
+                        else:
+                            # follow a local that carries the tuple (`index`)
+                            rr = sc.resolve(nm, x)
+                            if rr is not None and rr[0] == "let" and rr[1] is not None:
+                                for y in sir.walk(rr[1]):
+                                    if y.get("k") == "path" and y.get("s") == "location" and from_datafield("location", y, depth + 1):
+                                        return True
+            return False
         for n in sir.walk(g.body):
-            if n.get("k") == "mcall" and n["m"] == "then_some" and n["args"] and n["args"][0].get("k") == "tuple":
-                for x in sir.walk(n["args"][0]):
-                    if x.get("k") == "path" and x["s"] == "location":
-                        r = sc.resolve("location", x)
-                        ok = r is not None and r[0] == "match" and "@DataField" in r[2]
-                        d = "the location carried into the ScopeRef is bound by %s" % ("the DataField pattern" if ok else ("%s %s" % (r[0], r[2]) if r else "nothing"))
+            if n.get("k") == "struct" and n["segs"][-1] == "ScopeRef":
+                loc = [fl["e"] for fl in n["fields"] if fl["name"] == "location"]
+                if loc:
+                    e = sir.strip_ref(loc[0])
+                    while e.get("k") == "mcall" and e["m"] == "clone":
+                        e = sir.strip_ref(e["recv"])
+                    if e.get("k") == "path" and len(e["segs"]) == 1:
+                        ok = from_datafield(e["segs"][0], e)
+                        d = "the location stored in the ScopeRef %s the one bound by the DataField pattern" % ("is" if ok else "is NOT")
         obs.append(ob("C16.loc/scope-ref", ok, ctx.where(g), d, witness=None if ok else "{{item}} inside wx:for is located at the wx:for attribute instead of its own text"))
     return obs
 
